@@ -96,6 +96,12 @@ def make_edge(rng, typ, k, maxexp, labels):
         info, li = gen.info(rng, R.CD[kp], 1e3)
         spec = {"type": "lm", "ids": [1, 2], "info": info.tolist(), "est": z, "est_kind": kp, "off": off, "off_kind": k, "off_id": 0}
         vs = [M.Vertex(1, M.mkpose(k, p1)), M.Vertex(2, M.mkpose(kp, l))]
+    if rng.random() < 0.08:
+        # an information matrix written without decimal points (integer dtype): the Jacobians are still real-valued derivatives
+        n_i = len(spec["info"])
+        spec["info"] = np.diag(rng.integers(1, 50, size=n_i)).astype(int).tolist()
+        spec["info_dtype"] = "int"
+        labels.add("information_integer_dtype")
     e = M.build_edge(spec)
     e.vertices = vs
     if rng.random() < 0.1:
